@@ -168,6 +168,19 @@ CHECKS = {
         design_ref='§7 C14',
         note=NOTE_COMMON + 'Quick tier replays ADDRESS/COLUMN on column blocks around the letter-count boundaries, thorough on all 16384 columns. Approximate matching on non-ascending keys, MATCH type -1, case-variant text keys, INDEX with a zero index are out of scope.',
         technique='TLA+ lookup oracle with TLC-checked laws, TLC-enumerated key columns / index grids / column letters replayed, trace validation'),
+    'C13': dict(
+        category='model_checking',
+        text=('The specification contains a lazy evaluator with error values for IF/3, IF/2, IFS and IFERROR nests (XlLogic.Eval). TLC enumerates '
+              'every nest of depth <= 1 and the depth-2 nests with one nested child over leaves {7, 9, failing expression, #N/A value} and three '
+              'condition kinds, checks on every enumerated nest the laws of the statement as invariants (UntakenBranchIrrelevant: replacing the branch '
+              'not taken by a failing expression never changes the value; IfErrorPassThrough; IfsFirstTrue / none => #N/A), and exports the value '
+              'under all 8 truth assignments, bare and embedded (T+1, 1+T, -T, T%, SUM(T,1), ROUND(T,0), 2*T). Binding: every nest is concretised to '
+              'formula text, translated by the real pipeline and evaluated under every truth assignment (conditions supplied by overrides: boolean '
+              'cell, numeric cell, comparison); a sample through the public file path; random depth-3 nests are evaluated by TLC from recorded '
+              'events (Trace_C13).'),
+        design_ref='§7 C13',
+        note=NOTE_COMMON + 'Embedded positions are compared only when the nest yields a number; a raised exception during evaluation counts as an error value. Function-argument embeddings only for depth <= 1 (parser cost).',
+        technique='TLA+ lazy evaluator with TLC-checked laws as invariants over all enumerated nests, nests replayed, trace validation'),
 }
 
 NOT_APPLICABLE = {}
